@@ -23,8 +23,13 @@ type Arr struct{ E []Val }
 // KV is a map pair.
 type KV struct{ K, V Val }
 
-// Map is an immutable map sorted by key order with unique keys.
-type Map struct{ P []KV }
+// Map is an immutable map sorted by key order with unique keys. Big mirrors whether the real interpreter
+// holds this map in its "large" representation (more than 4 pairs at some point of its history); it is used
+// only to decide which runs fall under the known aliasing finding, never for results.
+type Map struct {
+	P   []KV
+	Big bool
+}
 
 // Fn is a function value (closure).
 type Fn struct {
@@ -336,7 +341,7 @@ func MapSet(m *Map, k, v Val) *Map {
 	} else {
 		np = append(np, m.P[i:]...)
 	}
-	return &Map{np}
+	return &Map{P: np, Big: m.Big || len(np) > 4}
 }
 
 // MapGet looks a key up.
@@ -353,13 +358,13 @@ func MapDel(m *Map, k Val) (*Map, bool) {
 	i := sort.Search(len(m.P), func(i int) bool { return Cmp(m.P[i].K, k) >= 0 })
 	if i < len(m.P) && Cmp(m.P[i].K, k) == 0 {
 		np := append(append([]KV{}, m.P[:i]...), m.P[i+1:]...)
-		return &Map{np}, true
+		return &Map{P: np, Big: m.Big}, true
 	}
 	return m, false
 }
 
 func kvMap(k, v Val) *Map {
-	return &Map{[]KV{{"key", k}, {"value", v}}}
+	return &Map{P: []KV{{"key", k}, {"value", v}}}
 }
 
 // ---- scopes ----
@@ -627,6 +632,7 @@ func (r *Ref) eval(n *Node) Val { //nolint:gocyclo,funlen // node kinds
 			}
 			m = MapSet(m, k, v)
 		}
+		m.Big = len(n.Kids)/2 > 4 // sized by the number of pairs written, duplicates included
 		return r.big(m)
 	case KFunc:
 		f := &Fn{Decl: n, Env: r.env, Key: FuncKey(n)}
@@ -713,6 +719,10 @@ func (r *Ref) infix(n *Node) Val {
 	}
 	if op == "||" && l == true {
 		return true
+	}
+	if _, isStr := l.(string); isStr && op == "|" && unparen(n.Kids[1]).K == KCall {
+		// the documented pipe operator: string | call(...) evaluates the call (the string is its piped input)
+		return r.evalU(n.Kids[1])
 	}
 	rv := r.evalU(n.Kids[1])
 	if IsErr(rv) {
@@ -847,7 +857,7 @@ func Binary(op string, l, rv Val) Val { //nolint:gocyclo,funlen // operator tabl
 			if ri < 0 {
 				return errf("negative repeat")
 			}
-			if int64(len(lv))*ri > 1<<20 {
+			if ri > 0 && int64(len(lv)) > (1<<20)/ri {
 				return errf("repeat too large for the reference") // never generated
 			}
 			return strings.Repeat(lv, int(ri))
@@ -862,7 +872,10 @@ func Binary(op string, l, rv Val) Val { //nolint:gocyclo,funlen // operator tabl
 			if ri < 0 {
 				return errf("negative repeat")
 			}
-			if int64(len(lv.E))*ri > 1<<16 {
+			if len(lv.E) == 0 || ri == 0 {
+				return &Arr{}
+			}
+			if int64(len(lv.E)) > (1<<16)/ri {
 				return errf("repeat too large for the reference") // never generated
 			}
 			out := make([]Val, 0, len(lv.E)*int(ri))
@@ -879,7 +892,7 @@ func Binary(op string, l, rv Val) Val { //nolint:gocyclo,funlen // operator tabl
 		return errf("unknown operator on array")
 	case *Map:
 		if rm, ok := rv.(*Map); ok && op == "+" {
-			out := lv
+			out := &Map{P: lv.P, Big: lv.Big || len(rm.P) > 4}
 			for _, p := range rm.P {
 				out = MapSet(out, p.K, p.V)
 			}
@@ -984,7 +997,7 @@ func (r *Ref) slice(n *Node) Val {
 	case *Arr:
 		return &Arr{append([]Val{}, x.E[li:hv]...)}
 	case *Map:
-		return &Map{append([]KV{}, x.P[li:hv]...)}
+		return &Map{P: append([]KV{}, x.P[li:hv]...), Big: x.Big && hv-li > 4}
 	case Nil:
 		return Nil{}
 	}
@@ -1029,7 +1042,7 @@ func (r *Ref) idxAssign(n *Node) Val {
 		}
 		return v
 	case *Map:
-		if len(x.P) > 4 {
+		if len(x.P) > 4 || x.Big {
 			r.BigInPlace = true
 		}
 		if res := r.assign(n.Name, MapSet(x, idx, v), false); IsErr(res) {
@@ -1069,7 +1082,7 @@ func (r *Ref) del(n *Node) Val {
 		if !isMap {
 			return errf("delete index on non map")
 		}
-		if len(m.P) > 4 {
+		if len(m.P) > 4 || m.Big {
 			r.BigInPlace = true
 		}
 		nm, changed := MapDel(m, k)
@@ -1226,9 +1239,9 @@ func (r *Ref) builtin(n *Node) Val { //nolint:gocyclo // builtins
 			if e.Msg == ErrBudget {
 				return e
 			}
-			return &Map{[]KV{{"err", true}, {"value", ErrText{}}}}
+			return &Map{P: []KV{{"err", true}, {"value", ErrText{}}}}
 		}
-		return &Map{[]KV{{"err", false}, {"value", v}}}
+		return &Map{P: []KV{{"err", false}, {"value", v}}}
 	}
 	if IsErr(v) {
 		return v
@@ -1274,7 +1287,7 @@ func (r *Ref) builtin(n *Node) Val { //nolint:gocyclo // builtins
 			if len(x.P) <= 1 {
 				return Nil{}
 			}
-			return &Map{append([]KV{}, x.P[1:]...)}
+			return &Map{P: append([]KV{}, x.P[1:]...), Big: x.Big && len(x.P)-1 > 4}
 		case string:
 			if len(x) <= 1 {
 				return Nil{}
